@@ -225,6 +225,62 @@ Example C13_unchecked_source_is_delivered :
   consumer_check loader_check true true Decoding DataPageV1 DictPage = ByCall AeadVerified.
 Proof. vm_compute. repeat split. Qed.
 
+(** Merges (MergeRowReaders, MergeRowGroups rows; two inputs and the loser
+    tree alike): the inputs are refilled in an arbitrary order [sched]; when
+    one of the first k inputs holds an altered page fetched by a checking
+    loader and the merge went on until none of the k inputs had anything more
+    to give, it ended with the error - it did not take the failed refill for
+    the end of that input. *)
+Theorem C13_merge_reports : forall sched ins n alt o rest k j before after c,
+  merge_run false sched ins n alt = (o, rest) ->
+  (forall j, (j < k)%nat -> at_end (rest j) = true) ->
+  (j < k)%nat -> ins j = source before after c -> checkb c = true ->
+  exists m a, o = Reported m a.
+Proof. exact merge_reports_checked. Qed.
+Print Assumptions C13_merge_reports.
+
+Definition ex_merge_inputs : inputs := fun j =>
+  match j with
+  | O => repeat (AItem Clean) 3 ++ [AEnd]
+  | S O => source 2 2 CrcVerified
+  | _ => []
+  end.
+
+(** Non-vacuity, and the variant that takes a failed refill for the end of the
+    input refuted: two inputs refilled in turn, the second one fails at its
+    third refill (behind the first load); the merge reports it after 5 rows,
+    the lenient variant returns 5 of the 7 intact rows and no error (the rows of the
+    second input from the altered page on are missing), both with every input
+    at its end or failed. *)
+Example C13_lenient_merge_refuted :
+  fst (merge_run false [0;1;0;1;0;1;0;1;0;1]%nat ex_merge_inputs 0 false) = Reported 5 false /\
+  fst (merge_run true [0;1;0;1;0;1;0;1;0;1]%nat ex_merge_inputs 0 false) = Done 5 false /\
+  at_end (snd (merge_run true [0;1;0;1;0;1;0;1;0;1]%nat ex_merge_inputs 0 false) 0%nat) = true /\
+  first_stop (ex_merge_inputs 1%nat) = AFail.
+Proof. vm_compute. repeat split. Qed.
+
+(** Readers that deliver rows in windows (VariantReader.Next over the leaf
+    columns of a variant group): wherever the windows end relative to the
+    altered page - in particular when a window ends exactly where the page
+    begins, so that the page is loaded by the peek behind a window whose rows
+    are all there - the read ends with the error after exactly the intact rows
+    in front of the page. *)
+Theorem C13_windows_report : forall sizes before after c i rem n,
+  checkb c = true ->
+  read_windows true sizes (source before after c) i rem n false = Reported (before + n)%nat false.
+Proof. exact windows_report_checked. Qed.
+Print Assumptions C13_windows_report.
+
+(** The variant that returns the complete window and drops the failure met by
+    the peek is refuted by windows that end where the altered page begins
+    (windows of 3 rows, 3 intact rows in front): 6 rows and no error, the page
+    skipped; with windows of 2 rows the same variant still reports. *)
+Example C13_dropped_peek_error_refuted :
+  read_in_windows false (fun _ => 2%nat) (source 3 3 CrcVerified) = Done 6 false /\
+  read_in_windows false (fun _ => 1%nat) (source 3 3 CrcVerified) = Reported 3 false /\
+  read_in_windows true (fun _ => 2%nat) (source 3 3 CrcVerified) = Reported 3 false.
+Proof. vm_compute. repeat split. Qed.
+
 (** Non-vacuity: a concrete message and a 32-bit burst that starts in the
     middle of a byte and ends in the middle of the byte four bytes later meet
     the hypotheses; the checksums are different numbers. *)
